@@ -41,6 +41,18 @@ const NUMBERS: &[&str] = &[
 const UNITS: &[&str] = &[
     "pt", "pc", "in", "bp", "cm", "mm", "dd", "cc", "sp", "em", "ex", "fil", "fill", "filll",
     "true pt", "truept", "P T", "plus", "minus", "by", "to", "=", "width",
+    // proper prefixes of keywords: the scanner has consumed part of a keyword when it meets
+    // whatever comes next
+    "t", "tr", "tru", "p", "pl", "plu", "m", "mi", "min", "minu", "f", "fi", "fil", "fill", "e", "b",
+    "s", "i", "d", "c", "w", "wi", "T", "Pl",
+];
+
+/// Expandable tokens whose expansion is likely to fail (missing argument at end of input,
+/// `\the` of something without a value, a file that does not exist, a dangling \expandafter).
+const FAILING_EXPANDABLES: &[&str] = &[
+    "\\a", "\\b", "\\c", "\\the x", "\\the\\relax", "\\the", "\\input nofile ", "\\expandafter",
+    "\\expandafter\\a", "\\ifnum x", "\\ifcase", "\\fi", "\\else", "\\or", "\\noexpand", "\\jobname",
+    "\\fontname\\a", "\\csname",
 ];
 
 const FILES: &[&str] = &[
@@ -61,7 +73,40 @@ const REGISTER_PRIMS: &[&str] = &["\\count", "\\dimen", "\\skip", "\\toks"];
 /// A generated program is a list of fragments; truncation happens at fragment boundaries.
 fn gen_fragment(rng: &mut Rng) -> String {
     let voc = vocabulary();
-    let num = |rng: &mut Rng| NUMBERS[rng.usize_below(NUMBERS.len())].to_string();
+    let num = |rng: &mut Rng| -> String {
+        if rng.chance(1, 6) {
+            // digit strings at hostile LENGTHS (buffers of 17 fraction digits, 10-digit
+            // integers, ...), for the integer and the fraction part alike
+            const LENS: &[usize] = &[1, 2, 8, 9, 10, 11, 15, 16, 17, 18, 19, 20, 21, 32, 33, 64, 65, 300];
+            let digits = |rng: &mut Rng, n: usize| -> String {
+                (0..n)
+                    .map(|i| {
+                        if i + 1 == n {
+                            b'1' + rng.below(9) as u8
+                        } else {
+                            b'0' + rng.below(10) as u8
+                        }
+                    } as char)
+                    .collect()
+            };
+            let int_len = if rng.coin() { 1 } else { *rng.pick(LENS) };
+            let mut t = String::new();
+            if rng.chance(1, 4) {
+                t.push('-');
+            }
+            if rng.chance(1, 8) {
+                t.push_str(if rng.coin() { "\"" } else { "'" });
+            }
+            t.push_str(&digits(rng, int_len));
+            if rng.chance(2, 3) {
+                t.push(if rng.chance(1, 5) { ',' } else { '.' });
+                let fl = *rng.pick(LENS);
+                t.push_str(&digits(rng, fl));
+            }
+            return t;
+        }
+        NUMBERS[rng.usize_below(NUMBERS.len())].to_string()
+    };
     match rng.below(100) {
         0..=24 => format!("\\{} ", voc[rng.usize_below(voc.len())]),
         25..=34 => num(rng),
@@ -77,7 +122,16 @@ fn gen_fragment(rng: &mut Rng) -> String {
             num(rng),
             if rng.coin() { *rng.pick(UNITS) } else { "" }
         ),
-        64..=66 => format!(
+        64 => format!(
+            "{}{}={}{}{}{}",
+            rng.pick(REGISTER_PRIMS),
+            num(rng),
+            num(rng),
+            if rng.coin() { *rng.pick(UNITS) } else { "pt " },
+            if rng.coin() { *rng.pick(UNITS) } else { "" },
+            rng.pick(FAILING_EXPANDABLES)
+        ),
+        65..=66 => format!(
             "\\{} {}{} by {}{} ",
             rng.pick(&["advance", "multiply", "divide"]),
             rng.pick(REGISTER_PRIMS),
